@@ -8,6 +8,14 @@ import XmppModel.Lemmas.IbbSend
 import XmppModel.Model.IbbClose
 import XmppModel.Model.IbbBody
 import XmppModel.Model.IbbTable
+import XmppModel.Model.IbbCarrier
+import XmppModel.Lemmas.IbbCarrier
+import XmppModel.Model.IbbWriteSide
+import XmppModel.Model.IbbFlow
+import XmppModel.Model.IbbWrap
+import XmppModel.Model.IbbCloseProbe
+import XmppModel.Lemmas.IbbFlow
+import XmppModel.Lemmas.IbbWriteSide
 import XmppModel.Generated.C15
 /-!
 # C15 — an in-band bytestream is a reliable ordered byte pipe
@@ -412,11 +420,37 @@ theorem C15_open_register_first_fails :
     registersIffAccepted [.other, .register, .fallible true, .other, .fallible true, .fallible true,
       .fallible false] = false := by decide
 
-/-- the packet counters of both sides are 16 bit counters advanced by one: they wrap at 65536,
-the modulus of `recv` / `seqsFrom` (regenerated from the field types and the increment
-statements of `handlePayload` and `stanzaWriter.Write`) -/
+/-- PROBE FACTS (round E; they replace the source-shape facts about the increment statements): the
+real receiver, after 65535 accepted packets, answers packets numbered `65535`, `65536`, `0`, `0`, `1`
+exactly as the model does (ack, unexpected-request, ack, unexpected-request, ack: the counter wraps
+from 65535 to 0 and at no other point); the data stanzas number 65534 … 65537 of the real sender
+carry the numbers the packetiser predicts (65534, 65535, 0, 1) -/
+theorem C15_recv_wrap_probe : Generated.C15.recvWrapProbe = some recvWrapModel := by decide
+
+theorem C15_send_wrap_probe : Generated.C15.sendWrapProbe = some sendWrapModel := by decide
+
+/-- both counters wrap at 65536, the modulus of `recv` / `seqsFrom` (derived from the two probes) -/
 theorem C15_seq_modulus_fact :
     Generated.C15.recvSeqModulus = some 65536 ∧ Generated.C15.sendSeqModulus = some 65536 := by decide
+
+/-- PROBE FACT (round E): what a close looks like from outside on the REAL code — `Close` with a
+fault at each of its steps (flush refused, connection broken, error reply, no reply before the
+deadline; with and without a `Read` pending) and a close request of the peer (nothing buffered,
+unflushed bytes, the flush refused): what is returned / answered, what `Read` then does, how a late
+data packet is answered — is exactly what the model's close programs predict.  This ties
+`IbbClose.closeProgram` / `closeNoNotifyProgram` to behaviour at every fault position, independently
+of the shape of the source. -/
+theorem C15_close_probe :
+    Generated.C15.closeProbe = some (closeTable.map fun r => (r.1, r.2.map fun o => (o.1, o.2.1, o.2.2))) := by decide
+
+/-- directly on the probed table, no model in between: whatever step fails or none, and whoever
+closes, a `Read` issued (or pending) afterwards returns end-of-file and a late data packet is
+answered item-not-found (or cannot be answered at all because the connection is broken) -/
+theorem C15_close_probe_always_ends_read :
+    (Generated.C15.closeProbe.map fun rows => rows.length == 8 && rows.all fun r =>
+      match r.2 with
+      | some (_, rd, d) => rd == "EOF" && (d == "inf" || d == "skip")
+      | none => false) = some true := by decide
 
 /-- negation witness: taking the receiving side down only after the peer acknowledged the close
 request leaves it up whenever an earlier step fails -/
@@ -877,21 +911,48 @@ theorem C15_table_lookup (cd : Codec) (s : HState) (sid : Nat) (a p : Bytes) :
       | some h => .reply (recvWire cd (s.conn h) ⟨true, a, p⟩).2 := by
   cases ht : s.table sid <;> simp [hstep, ht]
 
-/-- a session id that is used again: whatever state the handler is in (the sid registered or not,
-any number of earlier streams with that sid, packets handled, closed by either side), after a
-stream with that sid is opened its packet 0 with a decodable payload is acknowledged and lands in
-the NEW connection, which held nothing before -/
+/-- a session id that is used again: whatever state the handler is in as long as the sid is FREE
+(never used, or any number of earlier streams with that sid, packets handled, closed by either
+side), after a stream with that sid is opened its packet 0 with a decodable payload is
+acknowledged and lands in the NEW connection, which held nothing before -/
 theorem C15_reopened_sid_is_fresh (cd : Codec) (s : HState) (sid : Nat) (p d : Bytes)
-    (hd : cd.dec p = some d) :
+    (hfree : s.table sid = none) (hd : cd.dec p = some d) :
     let s1 := (hstep cd s (.open sid)).1
+    (hstep cd s (.open sid)).2 = .opened s.next ∧
     (hstep cd s1 (.data sid [48] p)).2 = .reply .ack ∧
     ((hstep cd s1 (.data sid [48] p)).1.conn s.next).buf = d ∧
     (∀ h, h ≠ s.next → (hstep cd s1 (.data sid [48] p)).1.conn h = s.conn h) := by
   have hp : parseSeqAttr [48] = .num 0 := by decide
-  simp only [hstep, if_pos, setConn, recvWire, fresh, hp, recv, hd]
-  refine ⟨by simp, by simp, ?_⟩
+  simp only [hstep, hfree, Option.isSome_none, Bool.false_eq_true, if_false, if_pos, setConn, recvWire, fresh, hp, recv, hd]
+  refine ⟨trivial, by simp, by simp, ?_⟩
   intro h hh
   simp [hh]
+
+/-- a session id that is IN USE cannot be opened a second time — by the peer, by a third party, by
+anybody: the request is refused and nothing changes; in particular the next packet of the stream
+that has the id is handled by its connection exactly as if the request had never come -/
+theorem C15_open_in_use_refused (cd : Codec) (s : HState) (sid h : Nat) (a p : Bytes)
+    (hused : s.table sid = some h) :
+    hstep cd s (.open sid) = (s, .refused) ∧
+    hstep cd (hstep cd s (.open sid)).1 (.data sid a p) = hstep cd s (.data sid a p) := by
+  have : hstep cd s (.open sid) = (s, .refused) := by simp [hstep, hused]
+  exact ⟨this, by rw [this]⟩
+
+/-- stream 7 carries `ABC`; a second open for 7 is refused; packet 1 (`DEF`) of the stream is
+acknowledged and the reader of the ONE connection gets `ABCDEF` -/
+example : (hrun std {} [.open 7, .data 7 [48] [81, 85, 74, 68], .open 7, .data 7 [49] [82, 69, 86, 71], .read 0 8]).2 =
+    [.opened 0, .reply .ack, .refused, .reply .ack, .read (.data [65, 66, 67, 68, 69, 70])] := by decide
+
+/-- negation witness (the code before the round-E repair: `addStream` overwrote the entry): a
+handler that accepts the second open hands the stream's next packet to the new, empty connection,
+which expects number 0 — a valid, in-sequence packet of an open stream is refused -/
+theorem C15_open_overwrites_fails :
+    let s1 : HState := (hrun std {} [.open 7, .data 7 [48] [81, 85, 74, 68]]).1
+    let s2 : HState := { s1 with next := 2, conn := fun i => if i = 1 then fresh else s1.conn i,
+                                 table := fun x => if x = 7 then some 1 else s1.table x }
+    (hstep std s1 (.data 7 [49] [82, 69, 86, 71])).2 = .reply .ack ∧
+    (hstep std s2 (.data 7 [49] [82, 69, 86, 71])).2 = .reply .unexpectedRequest := by
+  decide
 
 /-- closing a stream (either side) unregisters its sid: later packets for it are refused with
 item-not-found until a stream with that sid is opened again; the closed connection keeps its bytes -/
@@ -927,6 +988,322 @@ peer's packets and close requests on the serve goroutine.  (Before the round-D f
 theorem C15_stream_table_accesses_locked : Generated.C15.streamTableLocked = some true := by decide
 
 end Table
+
+/-! ### the carrier message: the packet is the IBB data child wherever it stands (round E) -/
+section Carrier
+
+/-- the packet a message carries does not depend on where its `<data/>` child stands: any number of
+other children (hints, thread, body, white space, foreign elements) before and after it -/
+theorem C15_carrier_position_irrelevant (before after : List Nat) (p : BodyPacket) :
+    carried (carrierChildren before after p) = some p := by
+  unfold carried carrierChildren
+  rw [dataChildren_append, dataChildren_others]
+  simp [dataChildren, dataChildren_others]
+
+/-- hence the message is handled exactly like the bare packet: every theorem about `recvBody`
+(refusals leave the stream untouched, an acknowledged packet appends exactly its payload) holds for
+a packet at any position of its carrier message -/
+theorem C15_carrier_handled_like_bare_packet (cd : Codec) (s : RState) (before after : List Nat) (p : BodyPacket) :
+    recvMessage cd s (carrierChildren before after p) = .handled (recvBody cd s p).1 (recvBody cd s p).2 := by
+  unfold recvMessage carrierChildren
+  rw [dataChildren_append, dataChildren_others]
+  simp [dataChildren, dataChildren_others]
+
+/-- a valid, in-sequence packet is acknowledged and delivered whatever surrounds it -/
+theorem C15_carrier_accept_delivers (cd : Codec) (s : RState) (before after : List Nat) (p : BodyPacket)
+    (h : (recvBody cd s p).2 = .ack) :
+    ∃ s' d, recvMessage cd s (carrierChildren before after p) = .handled s' .ack ∧
+      cd.dec (bodyText p.body) = some d ∧ s'.buf = s.buf ++ d ∧ s'.seq = (s.seq + 1) % 65536 := by
+  obtain ⟨d, hd, hb, hs⟩ := C15_body_accept_delivers_every_piece cd s p h
+  exact ⟨_, d, by rw [C15_carrier_handled_like_bare_packet, h], hd, hb, hs⟩
+
+/-- children that are not the packet never reach the stream -/
+theorem C15_carrier_other_children_inert (cd : Codec) (s : RState) (cs : List Nat) :
+    recvMessage cd s (cs.map Child.other) = .notIbb := by
+  unfold recvMessage; rw [dataChildren_others]
+
+/-- `<no-copy/><thread/>` before the packet, `<body/>` after it: acknowledged, `ABC` delivered -/
+example : recvMessage std ⟨true, 0, [120], 0⟩ (carrierChildren [0, 1] [2] ⟨true, [48], [.text [81, 85, 74, 68]]⟩) =
+    .handled ⟨true, 1, [120, 65, 66, 67], 0⟩ .ack := by decide
+
+/-- negation witness (seeded C15-17): a handler that takes the FIRST child of the message for the
+packet refuses a valid in-sequence packet that follows a processing hint (item-not-found: the
+hint names no stream), so its bytes — and every later packet of the stream — are lost -/
+theorem C15_carrier_first_child_only_fails :
+    ∃ (s : RState) (cs : List Child) (p : BodyPacket), carried cs = some p ∧ (recvBody std s p).2 = .ack ∧
+      recvMessageFirstChild std s cs = .handled s .itemNotFound :=
+  ⟨⟨true, 0, [], 0⟩, carrierChildren [0] [] ⟨true, [48], [.text [81, 85, 74, 68]]⟩, ⟨true, [48], [.text [81, 85, 74, 68]]⟩,
+    by decide, by decide, by decide⟩
+
+set_option synthInstance.maxSize 512 in
+/-- PROBE FACT: the real handler, run by `harness facts` on a fresh message-carrier stream for every
+shape of `carrierUniverse` (the packet alone; a hint before / after it; thread + hint before; a body
+with base64-looking text before; white space around; an element named `data` in another namespace
+before / after; an IBB data element nested in another child before / after; many children on both
+sides; out-of-sequence packets behind / before other children), answers and delivers exactly what
+the model does -/
+theorem C15_carrier_probe :
+    Generated.C15.carrierProbe = some (carrierUniverse.map fun r => (r.1, r.2.1, r.2.2, (carrierModel r).1, (carrierModel r).2)) := by
+  decide
+
+end Carrier
+
+/-! ### the write side under concurrent use: the peer's close while the application writes (round E) -/
+section WriteSide
+open XmppModel.IbbWriteSide
+
+/-- the invariant is inductive: initially, and across every enabled step of either thread -/
+theorem C15_write_side_inv_step (s s' : St) (a : Act) (h : Inv s) (hs : step true s a = some s') : Inv s' :=
+  inv_step h hs
+
+/-- with every use of the write side under the write lock: for EVERY interleaving of Write / Flush
+of the application with the flush of a peer-initiated close on the serving goroutine (which
+leaves the write side alone when the lock is taken), what has gone out in data stanzas followed by
+what is still buffered is exactly what Write accepted — each byte at most once, in order, nothing
+lost -/
+theorem C15_write_side_exactly_once (acts : List Act) (s : St) (h : run true {} acts = some s) :
+    s.wire ++ s.buf = s.written :=
+  (inv_run inv_init h).1
+
+/-- in particular the bytes on the wire are a prefix of the bytes written -/
+theorem C15_write_side_wire_is_prefix (acts : List Act) (s : St) (h : run true {} acts = some s) :
+    s.wire <+: s.written :=
+  ⟨s.buf, C15_write_side_exactly_once acts s h⟩
+
+/-- and a flush that completes leaves nothing behind: everything accepted so far is on the wire -/
+theorem C15_write_side_flush_drains (acts : List Act) (s s' : St) (t : Tid) (h : run true {} acts = some s)
+    (hs : step true s (.flushEnd t) = some s') : s'.wire = s'.written := by
+  have hi := inv_run inv_init h
+  have hi' := inv_step hi hs
+  simp only [step] at hs
+  cases hsn : s.snap t with
+  | none => simp [hsn] at hs
+  | some l =>
+    obtain ⟨hlock, hl⟩ := hi.2 t l hsn
+    simp [hsn, hlock] at hs; subst hs; subst hl
+    have := hi'.1
+    cases t <;> simp_all [St.setSnap]
+
+/-- non-vacuity: the application writes and flushes, the peer's close finds the lock taken and
+stays away, the application writes again, a later close flushes the rest -/
+example : (run true {} [.write [65, 66], .flushBegin false, .trySkip, .flushEnd false, .write [67],
+    .flushBegin true, .flushEnd true]).map (fun s => (s.wire, s.buf)) = some ([65, 66, 67], []) := by decide
+
+/-- negation witness (the pinned snapshot: the serving goroutine flushes without the lock): both
+threads are inside Flush with the same buffer contents, the byte goes out twice -/
+theorem C15_write_side_unlocked_duplicates :
+    ∃ acts s, run false {} acts = some s ∧ s.written = [65] ∧ s.wire = [65, 65] :=
+  ⟨[.write [65], .flushBegin false, .flushBegin true, .flushEnd false, .flushEnd true], _, rfl, by decide, by decide⟩
+
+/-- the peer's close never waits for the writer: with TryLock, whatever the peer has sent (its
+`<close/>`, acknowledgements, in any order and number) while the application sits in `Flush` holding
+the write lock and waiting for an acknowledgement, the serving goroutine handles every stanza, is
+never parked, the close is answered and the application's call returns -/
+theorem C15_peer_close_never_waits_for_writer (inbox : List Stanza) :
+    let s := serveRun true inbox.length { inbox := inbox }
+    s.inbox = [] ∧ s.serveParked = false ∧ (Stanza.close ∈ inbox → s.closeAnswered = true) ∧
+      (Stanza.ack ∈ inbox → s.appReturned = true) := by
+  have := serveRun_tryLock inbox { inbox := inbox } rfl rfl
+  exact ⟨this.1, this.2.1, fun h => this.2.2.1 (Or.inl h), fun h => this.2.2.2 (Or.inl h)⟩
+
+/-- negation witness (own mutation M2: `Lock` instead of `TryLock`): the close arrives before the
+acknowledgement the writer waits for; the serving goroutine parks on the write lock, the
+acknowledgement behind it is never delivered, nothing can move any more -/
+theorem C15_blocking_lock_deadlocks :
+    let s := serveRun false 8 { inbox := [.close, .ack] }
+    s.serveParked = true ∧ s.appInFlush = true ∧ s.closeAnswered = false ∧ s.appReturned = false ∧
+      s.inbox = [.ack] ∧ serveStep false s = none := by decide
+
+/-- REGENERATED FACT (lock discipline, not probeable): in package ibb every use of the write side of
+`Conn` — the field of type `*bufio.Writer` and the encoder's closer of type `func() error`, whatever
+they are called; the read-only `Size` / `Available` / `Buffered` excepted — is made while one and the
+same mutex of `Conn` is held (Lock, or a TryLock on the path that continues), in the function itself
+or at every call site of a helper.  This is what makes `step true` the adequate model.  (Before the
+round-E fix: `some false`, unguarded use in Close, closeNoNotify, flush.) -/
+theorem C15_write_side_locked : Generated.C15.writeSideLocked = some true := by decide
+
+end WriteSide
+
+/-! ### flow control: any receive-buffer limit, reads interleaved with packets (round E) -/
+section Flow
+
+/-- SAFETY for every history whatsoever: from ANY receiver state (any limit, any expected number,
+anything buffered), for every interleaving of packets (good, bad, repeated, out of sequence,
+oversize), reads of any sizes and limit changes — what the reader got, followed by what is still
+buffered, is what was buffered at the start followed by the decoded payloads of exactly the
+ACKNOWLEDGED packets, in order, each once.  No refused packet contributes a byte, no
+acknowledged byte is lost, repeated or moved. -/
+theorem C15_flow_exactly_once (cd : Codec) : ∀ (ops : List FOp) (s : RState),
+    ∃ d, decodeAll cd (flowRun cd s ops).acked = some d ∧
+      (flowRun cd s ops).delivered ++ (flowRun cd s ops).st.buf = s.buf ++ d := by
+  intro ops
+  induction ops with
+  | nil => intro s; exact ⟨[], rfl, by simp [flowRun]⟩
+  | cons o os ih =>
+    intro s
+    cases o with
+    | pkt p =>
+      by_cases ha : (recv cd s p).2 = .ack
+      · obtain ⟨d1, _, _, _, hd, _, hst⟩ := recv_ack cd s p ha
+        obtain ⟨d2, hd2, hb⟩ := ih (recv cd s p).1
+        refine ⟨d1 ++ d2, ?_, ?_⟩
+        · simp [flowRun, ha, decodeAll, hd, hd2]
+        · simp only [flowRun]
+          rw [hb, hst]; simp [List.append_assoc]
+      · obtain ⟨d2, hd2, hb⟩ := ih (recv cd s p).1
+        refine ⟨d2, ?_, ?_⟩
+        · simp [flowRun, ha, hd2]
+        · simp only [flowRun]; rw [hb, recv_nack cd s p ha]
+    | read n =>
+      obtain ⟨d2, hd2, hb⟩ := ih (Ibb.read s n).1
+      refine ⟨d2, by simpa [flowRun] using hd2, ?_⟩
+      simp only [flowRun, List.append_assoc]
+      rw [hb]
+      simp [Ibb.read, ← List.append_assoc]
+    | setMax n bs =>
+      obtain ⟨d2, hd2, hb⟩ := ih (setMax s n bs)
+      exact ⟨d2, by simpa [flowRun] using hd2, by simpa [flowRun, Ibb.setMax] using hb⟩
+
+/-- the acknowledged packets of any history are numbered consecutively modulo 65536 from the number
+the receiver expected at the start: a repeated, skipped or stale number is never acknowledged -/
+theorem C15_flow_acked_consecutive (cd : Codec) : ∀ (ops : List FOp) (s : RState), s.seq < 65536 →
+    seqsFrom s.seq (flowRun cd s ops).acked = true := by
+  intro ops
+  induction ops with
+  | nil => intro s _; rfl
+  | cons o os ih =>
+    intro s hlt
+    cases o with
+    | pkt p =>
+      by_cases ha : (recv cd s p).2 = .ack
+      · obtain ⟨d1, hk, _, hs, _, _, hst⟩ := recv_ack cd s p ha
+        have := ih (recv cd s p).1 (by rw [hst]; exact Nat.mod_lt _ (by decide))
+        rw [hst] at this
+        simp only [flowRun, ha, if_true, seqsFrom, Bool.and_eq_true, beq_iff_eq]
+        refine ⟨⟨by rw [hs, Nat.mod_eq_of_lt hlt], hk⟩, ?_⟩
+        rw [seqsFrom_mod, hst]; exact this
+      · have := ih (recv cd s p).1 (by rw [recv_nack cd s p ha]; exact hlt)
+        rw [recv_nack cd s p ha] at this
+        simpa [flowRun, ha, recv_nack cd s p ha] using this
+    | read n => simpa [flowRun, Ibb.read] using ih (Ibb.read s n).1 hlt
+    | setMax n bs => simpa [flowRun, Ibb.setMax] using ih (setMax s n bs) hlt
+
+/-- an in-sequence, decodable packet for a live stream is refused — with resource-constraint and
+nothing else — exactly when it does not fit AT THAT MOMENT; otherwise it is acknowledged -/
+theorem C15_flow_refused_iff_no_room (cd : Codec) (s : RState) (p : Packet) (d : Bytes)
+    (hk : p.known = true) (hl : s.live = true) (hs : p.seq = s.seq) (h : cd.dec p.payload = some d) :
+    (fits s d → (recv cd s p).2 = .ack) ∧ (¬ fits s d → recv cd s p = (s, .resourceConstraint)) := by
+  constructor
+  · intro hf; rw [C15_accept cd s p d hk hl hs h hf]
+  · intro hf
+    unfold fits at hf
+    exact C15_refuse_oversize cd s p d hk hl hs h (by omega) (by omega)
+
+/-- back-pressure is not loss: a packet that was refused for lack of room is acknowledged when it
+is sent again after the reader has made room — after ANY sequence of reads that leaves enough
+space, in particular after the buffer was drained, provided the packet is not larger than the limit -/
+theorem C15_flow_retry_after_reads (cd : Codec) (s : RState) (p : Packet) (d : Bytes) (ns : List Nat)
+    (hk : p.known = true) (hl : s.live = true) (hs : p.seq = s.seq) (h : cd.dec p.payload = some d)
+    (hroom : fits (readAll s ns) d) :
+    (recv cd (readAll s ns) p).2 = .ack ∧ (recv cd (readAll s ns) p).1.buf = (readAll s ns).buf ++ d := by
+  obtain ⟨h1, h2, h3, _⟩ := readAll_fields s ns
+  have := C15_accept cd (readAll s ns) p d hk (by rw [h1]; exact hl) (by rw [h2]; exact hs) h hroom
+  rw [this]; exact ⟨rfl, rfl⟩
+
+theorem C15_flow_drained_makes_room (s : RState) (d : Bytes) (hd : s.maxBuf = 0 ∨ d.length ≤ s.maxBuf) :
+    fits (readAll s [s.buf.length]) d := by
+  unfold fits
+  simp only [readAll, Ibb.read, List.drop_length, List.length_nil]
+  omega
+
+/-- THE PIPE with flow control (the `maxBuf = 0`, reader-idle hypotheses of `C15_pipe` removed): the
+receiver starts with ANY limit; the history is ANY interleaving of packets, reads and limit changes in
+which the packets that end up acknowledged are the sender's packets `ps` (an admissible
+packetisation of `written`; refused ones may have been re-sent any number of times, bad packets
+injected anywhere).  Then what the reader got plus what is buffered is a prefix of the bytes
+written — all of them once `Close` has completed — unmodified, in order, exactly once. -/
+theorem C15_flow_pipe (cd : Codec) (written : Bytes) (closed : Bool) (ps : List Packet) (maxBuf : Nat)
+    (ops : List FOp) (h : emits cd written closed ps = true)
+    (hacked : (flowRun cd ⟨true, 0, [], maxBuf⟩ ops).acked = ps) :
+    let r := flowRun cd ⟨true, 0, [], maxBuf⟩ ops
+    (r.delivered ++ r.st.buf).isPrefixOf written = true ∧ (closed = true → r.delivered ++ r.st.buf = written) := by
+  obtain ⟨d, hd, hb⟩ := C15_flow_exactly_once cd ops ⟨true, 0, [], maxBuf⟩
+  unfold emits at h
+  simp only [Bool.and_eq_true] at h
+  rw [hacked] at hd
+  simp only [hd] at h
+  simp only [List.nil_append] at hb
+  constructor
+  · rw [hb]
+    cases closed
+    · simpa using h.2
+    · have := h.2; simp at this; subst this; simp
+  · intro hc; rw [hb]; subst hc; simpa using h.2
+
+/-- non-vacuity, limit 4: `ABC` accepted, `DEF` refused (resource-constraint), the reader drains,
+`DEF` sent again is accepted, a stale repetition of packet 0 is refused; the reader gets `ABCDEF` -/
+example : let r := flowRun std ⟨true, 0, [], 4⟩ [.pkt ⟨true, 0, [81, 85, 74, 68]⟩, .pkt ⟨true, 1, [82, 69, 86, 71]⟩,
+      .read 8, .pkt ⟨true, 1, [82, 69, 86, 71]⟩, .pkt ⟨true, 0, [81, 85, 74, 68]⟩, .read 8]
+    r.replies = [.ack, .resourceConstraint, .ack, .unexpectedRequest] ∧ r.delivered = [65, 66, 67, 68, 69, 70] ∧
+    r.acked = [⟨true, 0, [81, 85, 74, 68]⟩, ⟨true, 1, [82, 69, 86, 71]⟩] ∧
+    emits std [65, 66, 67, 68, 69, 70] true r.acked = true := by decide
+
+end Flow
+
+/-! ### who a stanza comes from: a stream is (session id, peer) (round E) -/
+section Sender
+
+/-- a close request closes the stream iff it names it (session id AND sender); any other close
+request is answered item-not-found and changes nothing -/
+theorem C15_close_request_only_from_peer (s : RState) :
+    closeRequest s false = (s, .itemNotFound) ∧
+    (s.live = true → closeRequest s true = (Ibb.close s, .ack)) := by
+  constructor
+  · simp [closeRequest]
+  · intro h; simp [closeRequest, h]
+
+/-- stanzas that do not name the stream — another session id, or the right session id from
+somebody who is not the stream's peer — can be removed from ANY history (packets, reads, limit
+changes, from any state): the receiver ends in the same state, the same packets are acknowledged
+and the reader gets the same bytes.  Nobody but the peer can put a byte into the stream. -/
+theorem C15_foreign_stanzas_inert (cd : Codec) : ∀ (ops : List FOp) (s : RState),
+    (flowRun cd s (dropForeign ops)).st = (flowRun cd s ops).st ∧
+    (flowRun cd s (dropForeign ops)).acked = (flowRun cd s ops).acked ∧
+    (flowRun cd s (dropForeign ops)).delivered = (flowRun cd s ops).delivered := by
+  intro ops
+  induction ops with
+  | nil => intro s; exact ⟨rfl, rfl, rfl⟩
+  | cons o os ih =>
+    intro s
+    cases o with
+    | pkt p =>
+      cases hk : p.known with
+      | true =>
+        have := ih (recv cd s p).1
+        simp only [dropForeign, hk, if_true, flowRun]
+        exact ⟨this.1, by rw [this.2.1], this.2.2⟩
+      | false =>
+        have hr := C15_refuse_unknown_or_closed cd s p (Or.inl hk)
+        have := ih s
+        simp only [dropForeign, hk, flowRun, hr]
+        exact ⟨this.1, by simpa using this.2.1, this.2.2⟩
+    | read n =>
+      have := ih (Ibb.read s n).1
+      simp only [dropForeign, flowRun]
+      exact ⟨this.1, this.2.1, by rw [this.2.2]⟩
+    | setMax n bs => simpa [dropForeign, flowRun] using ih (setMax s n bs)
+
+/-- a third party's packet with the expected number is refused, the peer's is then acknowledged -/
+example : (flowRun std ⟨true, 0, [], 0⟩ [.pkt ⟨false, 0, [90, 88, 90, 112]⟩, .pkt ⟨true, 0, [81, 85, 74, 68]⟩, .read 8]).replies =
+    [.itemNotFound, .ack] := by decide
+
+/-- PROBE FACT: the real handler, on a stream opened by the peer, answers a data packet and a close
+request that name the stream's session id exactly as the model does for every kind of sender: the
+peer itself and a stanza without `from` are the stream's; another resource of the peer's account,
+its bare address, a third party and the server are not (item-not-found, the stream is untouched) -/
+theorem C15_sender_probe : Generated.C15.senderProbe = some ((List.range 6).map senderModel) := by decide
+
+end Sender
 
 /-! ### the executable codec instance: spot checks -/
 example : std.dec (std.enc [1, 2, 3, 4, 5]) = some [1, 2, 3, 4, 5] := by decide
